@@ -311,7 +311,10 @@ where
         spans: &mut Vec<Span>,
     ) -> Option<ActionT> {
         let mut recoverer = None;
+        #[cfg_attr(grmtools_verif, allow(unused_mut))]
         let mut recovery_budget = Duration::from_millis(RECOVERY_TIME_BUDGET);
+        #[cfg(grmtools_verif)]
+        let mut recovery_budget = crate::verif::budget_or(recovery_budget);
         loop {
             debug_assert_eq!(astack.len(), spans.len());
             let stidx = *pstack.last().unwrap();
